@@ -223,9 +223,26 @@ def coq_property(ctx, pid):
         res["log"] = "forbidden constructs: " + "; ".join(bad[:10])
         res["hygiene"] = bad
         return res
-    # dependencies must have been built by prepare (make -k); compile the property file itself here
-    rc, out, err = sh("timeout 900 coqc -q -Q theories GG -w -notation-overridden,-deprecated-hint-without-locality,-deprecated-syntactic-definition,-ambiguous-paths theories/Properties/%s.v 2>&1" % pid, cwd=coqdir, timeout=1000)
-    log = out + err
+    # dependencies must have been built by prepare (make -k); compile the property file itself here, into a private
+    # output file and under the build lock (another check may be rebuilding the shared .vo files)
+    outdir = os.path.join(ctx.cache, "props", str(os.getpid()))
+    os.makedirs(outdir, exist_ok=True)
+    outvo = os.path.join(outdir, "%s.vo" % pid)
+    cmd = ("timeout 900 coqc -q -Q theories GG -w -notation-overridden,-deprecated-hint-without-locality,-deprecated-syntactic-definition,-ambiguous-paths "
+           "-o %s theories/Properties/%s.v 2>&1" % (outvo, pid))
+    for attempt in (1, 2):
+        lock = open(os.path.join(CACHE, "lock"), "w")
+        fcntl.flock(lock, fcntl.LOCK_EX)
+        try:
+            rc, out, err = sh(cmd, cwd=coqdir, timeout=1000)
+        finally:
+            fcntl.flock(lock, fcntl.LOCK_UN)
+            lock.close()
+        log = out + err
+        if rc == 0 and log.count("Closed under the global context") > 0:
+            break
+        time.sleep(2)
+    shutil.rmtree(outdir, ignore_errors=True)
     res["log"] = log[-6000:]
     res["closed"] = log.count("Closed under the global context")
     ax = re.findall(r"^Axioms:\n((?:.+\n)+)", log, flags=re.M)
@@ -305,6 +322,8 @@ class Report:
         self.cov["examples_nonvacuity"] = cq.get("examples", [])
         self.cov["print_assumptions_closed"] = cq["closed"]
         self.cov["axioms_reported"] = cq["axioms"]
+        if not cq["ok"]:
+            self.cov["coq_log_tail"] = cq["log"][-1500:]
         self.cov["extracted_v_unchanged_since_setup"] = self.ctx.extracted_same
 
     def violation(self, replay_obj, suffix=""):
